@@ -192,3 +192,24 @@ From Verif Require Gen.
 Theorem C09_table_update_is_one_step : Gen.table_ops_serialised = true /\ Gen.lock_discipline_table = true.
 Proof. split; reflexivity. Qed.
 Print Assumptions C09_table_update_is_one_step.
+
+(* ---------- reach, second clause: the forward labels of a learned route lead to its destination ---------- *)
+From Verif Require Import GossipDelivers GossipLabels.
+(* In every state the mesh of announcement handlers reaches from tables that hold bare direct-peer
+   routes (what Peering.AddLink writes: no path), with symmetric links and link labels unique per
+   router: a route with a path leads, label by label over the links of the routers on it, from the
+   router that holds it to the route's destination.  (follow looks every forward label up among
+   the current router's links, as Switch.ForwardByLabel does.) *)
+Theorem C09_labels_lead_to_destination : forall nodes adj cfg lab lat,
+  (length nodes <= 98)%nat -> (forall a, adj a a = false) -> (forall a b, adj a b = adj b a) ->
+  (forall r x y, In x (neighbours nodes adj r) -> In y (neighbours nodes adj r) -> lab r x = lab r y -> x = y) ->
+  forall c r e,
+  lreach nodes adj cfg lab lat c -> In e (c_tbl c r) -> e_path e <> [] ->
+  follow nodes adj lab lat r (e_path e) = Some (e_dst e).
+Proof. exact labels_lead_to_destination. Qed.
+Print Assumptions C09_labels_lead_to_destination.
+
+Example C09_labels_nonvacuous :
+  exists c e, lreach gx_nodes ex_adj ex_cfgs ex_lab ex_lat c /\ In e (c_tbl c gx_a) /\ e_dst e = gx_b /\ length (e_path e) = 2%nat /\
+              follow gx_nodes ex_adj ex_lab ex_lat gx_a (e_path e) = Some gx_b.
+Proof. exact labels_nonvacuous. Qed.
